@@ -194,7 +194,7 @@ def run_unit(u):
     engine.boot()
     from vtlengine import run
     try:
-        text = u.get('script') or ('R := %s;' % render.expr(u['term']))
+        text = u.get('script') or render.statement('R', u['term'])
     except Exception as e:  # renderer failure = machinery
         return {'machinery': 'render: %r' % e}
     tmpd = None
